@@ -460,6 +460,10 @@ func (ro *RedisOutput) parseAofReplayUnits(replayQuit usync.WaitCloser, reader *
 		inTxn       = false
 		txnStart    int64
 		txnCommands []bisyncAofCommand
+		// txnSeen counts the commands of the current source transaction as they appear in the
+		// stream; txnMirrored is decided on the first of them, before any output filter runs.
+		txnSeen     int
+		txnMirrored bool
 	)
 
 	syncDelayTestkey := []byte(ro.cfg.SyncDelayTestKey)
@@ -521,6 +525,8 @@ func (ro *RedisOutput) parseAofReplayUnits(replayQuit usync.WaitCloser, reader *
 			inTxn = true
 			txnStart = prevOffset
 			txnCommands = make([]bisyncAofCommand, 0, ro.cfg.BatchCmdCount)
+			txnSeen = 0
+			txnMirrored = false
 			prevOffset = endOffset
 			continue
 		}
@@ -528,7 +534,7 @@ func (ro *RedisOutput) parseAofReplayUnits(replayQuit usync.WaitCloser, reader *
 			if !inTxn {
 				return errors.Join(ErrCorrupted, fmt.Errorf("EXEC without MULTI"))
 			}
-			if isBisyncMirroredTransaction(txnCommands) {
+			if txnMirrored || isBisyncMirroredTransaction(txnCommands) {
 				// 已镜像过的事务直接吞掉，避免左右互相回放形成闭环。
 				bisyncTxnSuppressCounter.Add(1, ro.cfg.InputName, "ok")
 				inTxn = false
@@ -556,6 +562,22 @@ func (ro *RedisOutput) parseAofReplayUnits(replayQuit usync.WaitCloser, reader *
 			inTxn = false
 			prevOffset = endOffset
 			continue
+		}
+
+		if inTxn && sCmd != "ping" && !strings.EqualFold(sCmd, "select") {
+			// A mirrored transaction is identified by the first command of the source
+			// transaction writing a marker. This must be decided on the command as it appears
+			// in the stream: the output filters (key prefix / slot whitelists and blacklists,
+			// command blacklist) would otherwise drop the marker, and the business commands
+			// of the mirrored transaction would be sent back to the site they came from.
+			if txnSeen == 0 && isBisyncMarkerCommand(bisyncAofCommand{Cmd: sCmd, Args: argv}) {
+				txnMirrored = true
+			}
+			txnSeen++
+			if txnMirrored {
+				prevOffset = endOffset
+				continue
+			}
 		}
 
 		ignoresentinel := false
